@@ -219,6 +219,7 @@ pub(crate) mod verif_sys {
             let r = AdaptiveSlot {}.check(&mut ctx);
             assert!(r.is_pass() && ctx.result().is_pass());
             assert!(unsafe { READS } == 0);
+            std::mem::forget(ctx);
             kani::cover!(true);
         },
         7
@@ -253,6 +254,7 @@ pub(crate) mod verif_sys {
                 let v = (*tv).as_any().downcast_ref::<f64>();
                 assert!(v.is_some() && v.unwrap().to_bits() == want_obs.to_bits());
             }
+            std::mem::forget(ctx);
             kani::cover!(!t0 && t1);
             kani::cover!(t0 && t1);
             kani::cover!(!t0 && !t1);
